@@ -669,6 +669,17 @@ func (c *evalCtx) call(x *ast.CallExpr) SV {
 		t := c.typeOfExpr(x.Args[1])
 		ctor := enc.R.ifaceCtor(t)
 		return SV{t: boolT, term: fmt.Sprintf("((_ is %s) %s)", ctor, v.term)}
+	case "typednil":
+		// an interface value that holds a nil pointer (x != nil in Go, yet unusable)
+		argn(1)
+		v := c.eval(x.Args[0])
+		var ds []string
+		for _, m := range enc.R.ifaceOrder {
+			if _, ok := enc.R.ifaceTypes[m].Underlying().(*types.Pointer); ok {
+				ds = append(ds, fmt.Sprintf("(and ((_ is I_%s) %s) (= (v_%s %s) 0))", m, v.term, m, v.term))
+			}
+		}
+		return SV{t: boolT, term: or(ds...)}
 	case "isnil":
 		argn(1)
 		v := c.eval(x.Args[0])
